@@ -6,7 +6,7 @@ import AvoVerif.Gen.Regs
 Protocol handlers for C18.
 
 ```
-c18        <hdr> <ops…>                 → e <n> <classes…> f <k> <nodes:local…> g <k> <ndata:size…> c <ncons>
+c18        <hdr> <ops…>                 → e <n> <classes…> f <k> <nodes:local…> g <k> <ndata:size…> c <ncons> o -<F|G per file section>
 c18main    <hdr> <ops…>                 → s <0|1> a <0|1> t <0|1> d <diag>          (build.Main on the built context)
 accept-c18 <observed…> <hdr> <ops…>    → ok | first violated clause
 c18max     <mx> <nerrs>                 → number of diagnostic lines (LogError truncation; not part of the property)
@@ -242,7 +242,7 @@ def respond (ops : List Op) : String :=
   joinSp (["e", toString c.errs.length] ++ c.errs.map ErrClass.tag ++
     ["f", toString fns.length] ++ fns.map (fun f => s!"{f.nodeCount}:{f.localSize}") ++
     ["g", toString gl.length] ++ gl.map (fun g => s!"{g.data.length}:{g.size}") ++
-    ["c", toString c.cons.length])
+    ["c", toString c.cons.length, "o", String.ofList ('-' :: c.secOrder.map (fun b => if b then 'F' else 'G'))])
 
 def respondMain (ops : List Op) : String :=
   let c := run Ctx.init ops
